@@ -180,6 +180,40 @@ Section Map.
       end
     end.
 
+  (** ** number of calls of the user comparison (through cstl_map_node_cmp)
+
+      cstl_bintree_find compares once per node it visits, the found one
+      included; cstl_bintree_insert compares once per node of its descent,
+      which starts at the hinted node (at the root without a hint).  With
+      the would-be parent as hint the descent is one comparison long
+      (MapProofs.hinted_insert_one_cmp). *)
+  Definition find_cmps (t : tree) (k : Z) : nat :=
+    let '(sub, c) := find_ctx k t [] in length c + (if isE sub then 0 else 1).
+
+  Definition insert_cmps (hint : option nat) (t : tree) (x : elem) : nat :=
+    match hint with
+    | None => length (descend x t [])
+    | Some h =>
+      match locate h t [] with
+      | Some (sub, c) => length (descend x sub c) - length c
+      | None => O
+      end
+    end.
+
+  Definition op_cmps (s : mstate) (o : mop) : nat :=
+    match o with
+    | MInsert k v _ =>
+      let '(node, p) := map_find_node s k in
+      find_cmps (mt s) (ck k) +
+      match node with
+      | Some _ => O
+      | None => if grant ok (mal s) NODE_SIZE
+                then insert_cmps p (mt s) (mkE (next (mal s)) (ck k)) else O
+      end
+    | MFind k | MErase k _ | MEraseIter k => find_cmps (mt s) (ck k)
+    | MSize | MClear _ | MLive => O
+    end.
+
   Definition iter_out (i : iter) : list Z :=
     [zopt (ikey i); zopt (ival i); match inode i with Some _ => 1 | None => 0 end].
 
